@@ -245,10 +245,11 @@ fn mbuff_execute_program_cranelift() {
 
 // ------------------------------------------------------------------ EbpfVmFixedMbuff (C09 + C10)
 fn buff_len(d: usize, e: usize) -> usize { if d >= e { d + 8 } else { e + 8 } }
-fn any_fixed<'a>(cur: &'a [u8]) -> (EbpfVmFixedMbuff<'a>, u8) {
+fn any_fixed<'a>(cur: &'a [u8]) -> (EbpfVmFixedMbuff<'a>, u8) { any_fixed_b(cur, 120) }
+fn any_fixed_b<'a>(cur: &'a [u8], bound: usize) -> (EbpfVmFixedMbuff<'a>, u8) {
     let (parent, vk) = any_vm(cur);
     let (d, e): (usize, usize) = (kani::any(), kani::any());
-    kani::assume(d <= 120 && e <= 120); // BOUNDED
+    kani::assume(d <= bound && e <= bound); // BOUNDED
     let buffer = std::vec![0u8; buff_len(d, e)];
     (EbpfVmFixedMbuff { parent, mbuff: MetaBuff { data_offset: d, data_end_offset: e, buffer } }, vk)
 }
@@ -270,10 +271,10 @@ fn bounded_fixed_new() {
 }
 
 #[kani::proof]
-#[kani::unwind(130)]
+#[kani::unwind(28)]
 fn bounded_fixed_set_program() {
     let (p1, p2): ([u8; 8], [u8; 8]) = (kani::any(), kani::any());
-    let (mut vm, vk) = any_fixed(&p1);
+    let (mut vm, vk) = any_fixed_b(&p1, 16);
     kani::assume(fixed_inv(&vm, vk));
     // earlier executions (and earlier programs) may have left anything in the buffer: one arbitrary byte at an
     // arbitrary place stands for it
@@ -282,7 +283,7 @@ fn bounded_fixed_set_program() {
     let before = fixed_view(&vm);
     let before_buf = vm.mbuff.buffer.clone();
     let (d, e): (usize, usize) = (kani::any(), kani::any());
-    kani::assume(d <= 120 && e <= 120);
+    kani::assume(d <= 16 && e <= 16); // BOUNDED more tightly than the other harnesses: Vec reallocation (a change that resizes instead of replacing) is very expensive for CBMC
     match vm.set_program(&p2, d, e) {
         Ok(()) => {
             assert!(fixed_inv(&vm, vk) && vm.parent.prog.map(tag) == Some(tag(&p2)) && vm.mbuff.data_offset == d && vm.mbuff.data_end_offset == e,
